@@ -760,7 +760,7 @@ def run(ctx):
         rp = json.load(open(ctx.replay_file))
         progs = [rp["program"]]
     else:
-        n_prog = 700 if quick else 12000
+        n_prog = 2000 if quick else 20000
         fams = [None] * 6 + ["linear", "rotate", "shift", "norm", "ggsw", "rshdefect", "radixmix", "invalid"]
         progs = [gen_program(rng, force=rng.choice(fams)) for _ in range(n_prog)]
 
